@@ -8,10 +8,10 @@ histories of **any** length:
 
 * `step_inv` / `run_inv` — the weak representation invariant, also after caller-made name collisions;
 * `step_rect` / `run_rect` / `rows_have_reported_length` — rectangularity (and the kernel-checked
-  violation `translate_three_frames_not_rect` of the one excluded case);
+  violations `translate_three_frames_not_rect`, `compress_empty_not_rect` of the two excluded cases);
 * `step_names_nodup` / `run_names_nodup` — names stay pairwise distinct unless the caller edits names;
 * `step_refines` / `run_refines` — refinement to the plain-list reference model `Gv.Spec.stepOp`, for
-  all 24 operations of the history language;
+  all 28 operations of the history language;
 * `lookup_paths_agree`, `idByName_spec`, `byName_found_iff`, `obs_*` — the access paths agree;
 * `add_wrong_length_rejected` — a sequence of the wrong length is rejected, state unchanged.
 
@@ -98,6 +98,31 @@ theorem step_inv (b : Bag) (h : Inv b) (op : Op) (hw : OpWF b op) : Inv (stepOp 
       · rename_i r hr
         exact inv_trimSequences n fs b h r hr
   | autoAlpha => exact h.congr rfl rfl rfl
+  | revcomp => exact inv_reverseComplement b h
+  | replaceChar name site c =>
+    simp only [stepOp]
+    split
+    · exact h
+    · split
+      · exact h
+      · rename_i r hr
+        exact inv_replaceChar name site c b h r hr
+  | rmGapSites num den ends =>
+    simp only [stepOp]
+    split
+    · exact h
+    · split
+      · exact h
+      · rename_i r hr
+        exact inv_removeGapSites _ ends b h r hr
+  | compress =>
+    simp only [stepOp]
+    split
+    · exact h
+    · split
+      · exact h
+      · rename_i r hr
+        exact inv_compressBag b h r hr
 
 /-- **Every reachable state satisfies the invariant**: induction over histories of any length, from
 any state satisfying it (in particular from the empty containers). -/
@@ -256,12 +281,14 @@ permutation of the positions; `Translate` is asked for one frame, or for the thr
 alignment whose length is `≡ 2 (mod 3)` (known finding `align-translate-3frames-ragged`: for any other
 length the three frames have different numbers of codons, see `translate_three_frames_not_rect`);
 `Replace` and `Concat` did not return an error (both end with a scan of the row lengths and *report* a
-ragged result). -/
+ragged result); `Compress` is applied to an alignment that has sequences (on one without sequences it sets
+the cached length to 0 instead of leaving it at `-1`, see `compress_empty_not_rect`). -/
 def RectOK (b : Bag) : Op → Prop
   | .permute perm => IsPerm perm b.rows.length
   | .translate ph _ => TranslateRectOK b ph
   | .replace old new => (stepOp b (.replace old new)).2 ≠ "err"
   | .concat rows => (stepOp b (.concat rows)).2 ≠ "err"
+  | .compress => b.rows ≠ []
   | _ => True
 
 def HistRectOK : Bag → List Op → Prop
@@ -341,6 +368,31 @@ theorem step_rect (b : Bag) (h : Rect b) (op : Op) (hw : RectOK b op) : Rect (st
       · rename_i r hr
         exact rect_trimSequences n fs h r hr
   | autoAlpha => exact h.congr rfl rfl rfl
+  | revcomp => exact rect_reverseComplement h
+  | replaceChar name site c =>
+    simp only [stepOp]
+    split
+    · exact h
+    · split
+      · exact h
+      · rename_i r hr
+        exact rect_replaceChar name site c h r hr
+  | rmGapSites num den ends =>
+    simp only [stepOp]
+    split
+    · exact h
+    · split
+      · exact h
+      · rename_i r hr
+        exact rect_removeGapSites _ ends h r hr
+  | compress =>
+    simp only [stepOp]
+    split
+    · exact h
+    · split
+      · exact h
+      · rename_i r hr
+        exact rect_compressBag hw r hr
 
 /-- **Every reachable alignment is rectangular**: induction over histories of any length. -/
 theorem run_rect (ops : List Op) (b : Bag) (h : Rect b) (hw : HistRectOK b ops) : Rect (finalState b ops) := by
@@ -392,6 +444,20 @@ theorem translate_three_frames_not_rect :
 
 
 
+/-- the excluded case of `Compress` is a genuine violation (kernel-checked): compressing an alignment without
+sequences reports success and leaves the cached length at 0 although there is no row (every other
+operation that empties an alignment, and `NewAlign`, report `-1`) — after which a sequence of any positive
+length is rejected -/
+theorem compress_empty_not_rect :
+    Rect (newAlign 1) ∧ (stepOp (newAlign 1) .compress).2 = "ok[_]" ∧
+    ¬ Rect (stepOp (newAlign 1) .compress).1 ∧
+    (stepOp (stepOp (newAlign 1) .compress).1 (.add "a" [65, 67, 71])).2 = "err" := by
+  refine ⟨rect_of_empty_align 1, by decide, ?_, by decide⟩
+  intro h
+  have := h.empty_len (by decide) (by decide)
+  revert this
+  decide
+
 /-! ## names stay pairwise distinct unless the caller renames two rows to the same name -/
 
 /-- **One step keeps the names pairwise distinct**, for every operation other than the caller's own
@@ -431,10 +497,10 @@ def OpWFR (b : Bag) : Op → Prop
   | .sample _ perm => IsPerm perm b.rows.length
   | _ => True
 
-/-- **One step refines the reference model** — every one of the 24 operations of the history
+/-- **One step refines the reference model** — every one of the 28 operations of the history
 language (`add`, `ignore`, `clear`, `append`, `concat`, `rename`, `appendId`, `cleanNames`, `trimNames`,
 `trimAuto`, `sort`, `permute`, `filter`, `dedup`, `rmSeqs`, `translate`, `clone`, `sample`, `toUpper`,
-`toLower`, `replace`, `setChar`, `trimSeqs`, `autoAlpha`), arbitrary arguments: whenever the reference
+`toLower`, `replace`, `setChar`, `trimSeqs`, `autoAlpha`, `revcomp`, `replaceChar`, `rmGapSites`, `compress`), arbitrary arguments: whenever the reference
 specifies the outcome of the operation on the observable content, the Go-shaped model yields exactly
 that content (names, row order, residues, policy, alphabet, kind) and that status, and the strong
 invariant holds again. -/
@@ -467,6 +533,10 @@ theorem step_refines (b : Bag) (h : Good b) (op : Op) (hw : OpWFR b op)
     | setChar i j c => exact ref_setChar h i j c
     | trimSeqs n fs => exact ref_trimSeqs h n fs
     | autoAlpha => exact ref_autoAlpha h
+    | revcomp => exact ref_revcomp h
+    | replaceChar name site c => exact ref_replaceChar h name site c
+    | rmGapSites num den ends => exact ref_rmGapSites h num den ends
+    | compress => exact ref_compress h
   exact this s' st hs
 
 /-- the reference model run over a history: final content and the status of every step; `none` as
@@ -556,6 +626,31 @@ example : ∃ s' sts, specRun (abs (newAlign 1)) demoHist = some (s', sts) ∧
   | some r =>
     have := run_refines demoHist _ (good_of_empty_align 1) (by simp [demoHist, HistWFR, OpWFR]) r.1 r.2 h
     exact ⟨r.1, r.2, rfl, this.1, this.2.1⟩
+
+-- the operations shared with C06 / C13 and the by-name residue write in one history: reverse complement,
+-- `ReplaceChar` through the index, `Compress` (two of the four columns are equal), a rename, then writes by the
+-- old name, by the new name and outside the alignment
+def demoHist2 : List Op :=
+  [.add "b" [65, 67, 67, 65], .add "a" [71, 84, 84, 71], .revcomp, .replaceChar "a" 3 78, .compress,
+   .rename [("a", "c")], .replaceChar "a" 0 65, .replaceChar "c" 2 65, .replaceChar "c" 3 65]
+
+set_option maxRecDepth 100000 in
+example : ∃ s' sts, specRun (abs (newAlign 1)) demoHist2 = some (s', sts) ∧
+    abs (finalState (newAlign 1) demoHist2) = s' ∧ (runOps (newAlign 1) demoHist2).map (·.2) = sts ∧
+    sts = ["ok", "ok", "ok", "ok", "ok[2+1+1]", "ok", "err", "ok", "err"] := by
+  have hsome : (specRun (abs (newAlign 1)) demoHist2).isSome = true := by decide
+  cases h : specRun (abs (newAlign 1)) demoHist2 with
+  | none => rw [h] at hsome; cases hsome
+  | some r =>
+    have := run_refines demoHist2 _ (good_of_empty_align 1) (by simp [demoHist2, HistWFR, OpWFR]) r.1 r.2 h
+    refine ⟨r.1, r.2, rfl, this.1, this.2.1, ?_⟩
+    have h2 : (specRun (abs (newAlign 1)) demoHist2).map (·.2) = some ["ok", "ok", "ok", "ok", "ok[2+1+1]", "ok", "err", "ok", "err"] := by decide
+    rw [h] at h2
+    simpa using h2
+
+-- site removal after a compression: within the rectangularity theorem (the alignment has sequences)
+example : HistRectOK (newAlign 1) [.add "a" [65, 45, 45], .compress, .rmGapSites 1 2 true, .revcomp] :=
+  ⟨trivial, (by show _ ≠ _; decide), trivial, trivial, trivial⟩
 
 -- adding the same name three times under the default policy: the names stay distinct
 example : NamesNodup (finalState (newAlign 1) [.add "a" [65], .add "a" [67], .add "a" [71], .dedup false]) :=
